@@ -3,6 +3,8 @@ import Qats.Lemmas.RainflowRange
 import Qats.Lemmas.RainflowSort
 import Qats.Lemmas.RainflowEqns
 import Qats.Lemmas.RainflowAffine
+import Qats.Lemmas.RainflowAlt
+import Qats.Lemmas.RainflowNest
 /-!
 Main lemmas behind the C02 / C03 property theorems. Statements are fixed by `Qats/Props/C02.lean`, `C03.lean`.
 -/
@@ -25,9 +27,60 @@ inductive Refines : List α → List α → Prop
       Refines (pre ++ u :: v :: post) (pre ++ u :: w :: v :: post)
   | trans {s₁ s₂ s₃ : List α} : Refines s₁ s₂ → Refines s₂ s₃ → Refines s₁ s₃
 
+theorem AltD.alt {up : Bool} {l : List α} (h : AltD up l) : Alt l := by
+  induction l generalizing up with
+  | nil => trivial
+  | cons a l ih =>
+    rcases l with _ | ⟨b, _ | ⟨c, l⟩⟩
+    · trivial
+    · cases up
+      · exact ((altD_false_cons _ _ _).mp h).1.ne'
+      · exact ((altD_true_cons _ _ _).mp h).1.ne
+    · refine ⟨?_, ih (up := !up) (by cases up <;> simp_all [AltD])⟩
+      cases up
+      · rw [altD_false_cons, altD_true_cons] at h
+        exact Or.inr ⟨h.1, h.2.1⟩
+      · rw [altD_true_cons, altD_false_cons] at h
+        exact Or.inl ⟨h.1, h.2.1⟩
+
+theorem Alt.altD {l : List α} (h : Alt l) : ∃ up, AltD up l := by
+  induction l with
+  | nil => exact ⟨true, by simp⟩
+  | cons a l ih =>
+    rcases l with _ | ⟨b, _ | ⟨c, l⟩⟩
+    · exact ⟨true, by simp⟩
+    · rcases lt_or_gt_of_ne (show a ≠ b from h) with h' | h'
+      · exact ⟨true, by simp [AltD, h']⟩
+      · exact ⟨false, by simp [AltD, h']⟩
+    · obtain ⟨up, hup⟩ := ih h.2
+      cases up
+      · rw [altD_false_cons] at hup
+        refine ⟨true, ?_⟩
+        rw [altD_true_cons, altD_false_cons]
+        rcases h.1 with h1 | h1
+        · exact ⟨h1.1, hup⟩
+        · exact absurd h1.2 (not_lt.mpr hup.1.le)
+      · rw [altD_true_cons] at hup
+        refine ⟨false, ?_⟩
+        rw [altD_false_cons, altD_true_cons]
+        rcases h.1 with h1 | h1
+        · exact absurd h1.2 (not_lt.mpr hup.1.le)
+        · exact ⟨h1.1, hup⟩
+
 theorem reversals_alt (ep : Bool) (s pts : List α) (hp : reversals ep s = some pts) :
     Alt pts ∨ ∃ c, pts = [c, c] := by
-  sorry
+  rcases s with _ | ⟨x0, _ | ⟨x1, rest⟩⟩
+  · simp [reversals] at hp
+  · simp [reversals] at hp
+  · simp only [reversals, Option.some.injEq] at hp
+    subst hp
+    cases ep
+    · left
+      obtain ⟨up, h⟩ := reversals_false_altD x1 (x1 - x0) rest
+      simpa using h.alt
+    · rcases reversals_true_altD x0 x1 rest with ⟨up, h⟩ | h
+      · left; simpa [revL] using h.alt
+      · right; exact ⟨x0, by simpa [revL] using h⟩
 
 theorem cyclesOfPoints_range_nonneg (pts : List α) :
     ∀ c ∈ (cyclesOfPoints pts).1 ++ (cyclesOfPoints pts).2, 0 ≤ c.range := by
@@ -37,7 +90,15 @@ theorem cyclesOfPoints_largest (ep : Bool) (s pts : List α) (hp : reversals ep 
     (M m : α) (hM : M ∈ pts ∧ ∀ p ∈ pts, p ≤ M) (hm : m ∈ pts ∧ ∀ p ∈ pts, m ≤ p) :
     (∃ c ∈ (cyclesOfPoints pts).1 ++ (cyclesOfPoints pts).2, c.range = M - m) ∧
       ∀ c ∈ (cyclesOfPoints pts).1 ++ (cyclesOfPoints pts).2, c.range ≤ M - m := by
-  sorry
+  refine ⟨?_, cyclesOfPoints_range_le pts M m hM.2 hm.2⟩
+  rcases reversals_alt ep s pts hp with hA | ⟨c, rfl⟩
+  · obtain ⟨up, hup⟩ := hA.altD
+    exact cyclesOfPoints_largest_exists up pts h2 hup M m hM hm
+  · have hMc : M = c := by simpa using hM.1
+    have hmc : m = c := by simpa using hm.1
+    rw [hMc, hmc]
+    refine ⟨⟨|c - c|, 1 / 2 * (c + c)⟩, ?_, by simp⟩
+    simp [cyclesOfPoints, feed_cons, feed_nil, reduce_nil, reduce_single, leftovers_cons_cons, leftovers_single]
 
 theorem countCycles_count_values (ep : Bool) (s : List α) (rows : List (Row α))
     (hr : countCycles ep s = some rows) : ∀ r ∈ rows, r.count = 1 ∨ r.count = 1 / 2 := by
@@ -91,10 +152,25 @@ theorem count_affine_pos' (a b : α) (ha : 0 < a) (ep : Bool) (s : List α) :
 
 theorem reversals_refines' {s s' : List α} (h : Refines s s') (ep : Bool) :
     reversals ep s' = reversals ep s := by
-  sorry
+  induction h with
+  | refl s => rfl
+  | insert pre u w v post h => exact reversals_insert ep pre u w v post h
+  | trans _ _ ih1 ih2 => rw [ih2, ih1]
 
 theorem recount_reversals' (s pts : List α) (hp : reversals false s = some pts) (h2 : 2 ≤ pts.length) :
     countCycles true pts = countCycles false s := by
-  sorry
+  have hA : Alt pts := by
+    rcases reversals_alt false s pts hp with h | ⟨c, rfl⟩
+    · exact h
+    · rcases s with _ | ⟨x0, _ | ⟨x1, rest⟩⟩
+      · simp [reversals] at hp
+      · simp [reversals] at hp
+      · simp only [reversals, Option.some.injEq] at hp
+        obtain ⟨up, h⟩ := reversals_false_altD x1 (x1 - x0) rest
+        have : (revLoop x1 (x1 - x0) rest).1 = [c, c] := by simpa using hp
+        rw [this] at h
+        exact h.alt
+  obtain ⟨up, hup⟩ := hA.altD
+  simp only [countCycles, cycles, reversals_true_of_altD up pts h2 hup, hp]
 
 end Qats.Rainflow
